@@ -188,7 +188,28 @@ func (m *monitor) step(i int, o op, chunk pb.Chunk, res string, before, after fs
 				m.violation("REJECT", i, "a refused chunk removed temp dir "+k+" of another stream")
 			}
 		}
-		if !expected && !removed {
+		// a chunk 0 that is also the last chunk of its (one chunk) snapshot is first taken
+		// as the start of a stream - which, as for every chunk 0, discards a running stream
+		// of the same snapshot - and can then still fail at finalisation (Validate, or the
+		// snapshot is out of date: its final dir exists). It is refused, but it was a
+		// restart: only its own snapshot's stream and temp dirs may be gone.
+		restartLast := good && chunk.ChunkId == 0 && chunk.IsLastChunk()
+		if restartLast && !removed { // (on a removed replica the chunk is recorded and dropped: the entry lingers until gc)
+			for k, v := range trBefore {
+				if w, ok := trAfter[k]; k != key && (!ok || w != v) {
+					m.violation("INTERFERE", i, "a refused one-chunk snapshot changed the tracked stream "+k)
+				}
+			}
+			for k := range trAfter {
+				if _, ok := trBefore[k]; !ok {
+					m.violation("REJECT", i, "a refused chunk left a new tracked stream "+k)
+				}
+			}
+			if tracked {
+				m.disturbed = true
+			}
+		}
+		if !expected && !removed && !restartLast {
 			if len(at) != len(bt) || trackedText(trBefore) != trackedText(trAfter) {
 				m.violation("NO-EFFECT", i, fmt.Sprintf("refused chunk id=%d (not the next expected chunk of its sender) changed the receiver: tracked [%s] -> [%s], %d -> %d temp dirs",
 					chunk.ChunkId, trackedText(trBefore), trackedText(trAfter), len(bt), len(at)))
